@@ -23,6 +23,9 @@ type TypeMethod struct {
 	Inputs            []MethodType
 	Outputs           []MethodType
 	ReceiverIsPointer bool // true if receiver is *T, false if T
+
+	// PkgPath is the package of an unexported method ("" for exported methods)
+	PkgPath string
 }
 
 // MethodType represents a type in method signature
@@ -156,6 +159,7 @@ func extractMethodsFromNamedType(named *types.Named) []TypeMethod {
 			Inputs:            extractMethodTypesFromTuple(sig.Params(), sig.Variadic()),
 			Outputs:           extractMethodTypesFromTuple(sig.Results(), false),
 			ReceiverIsPointer: recvIsPointer,
+			PkgPath:           unexportedMethodPackage(method),
 		})
 	}
 
